@@ -48,6 +48,8 @@ APIS = {
     "pttempo": ["corr"],
     "gibbs": ["j"],
     "pttebd": ["shape"],
+    "pttebd_multithread": ["shape"],
+    "pttebd_multiprocess": ["shape"],
     "compute_correlations": ["H"],
 }
 PROGRESS = ["silent", "simple", "bar", None]
@@ -221,7 +223,9 @@ def run_schedule(case):
                 for held in ("timer", "caller"):
                     if held == "timer" and func == "exit":
                         continue      # exit() is only run by the caller
-                    for action in ("exit", "update+exit"):
+                    acts = ("exit", "update+exit", "update+callback+exit") \
+                        if held == "timer" else ("exit", "update+exit")
+                    for action in acts:
                         scen.append({"kind": "schedule",
                                      "id": f"schedule|{func}:{ln}|{held}|"
                                            f"{action}", "func": func,
